@@ -149,3 +149,47 @@ PROPS["C04"] = {
     "level_text": "Every k-mer type in the K set, with all contents where the content space is small and every-symbol-at-every-position families otherwise, is converted to and from integers by the real code at every slice offset and compared with the packing formula; every producer of an owned sequence is checked for the bit-0 word image and from_raw is called with every symbol count, at every word-boundary length.",
     "level_note": "Full 64/128-bit content spaces are covered by pattern families only; producers are a finite hand-listed set (plus C06's explorer for edit semantics).",
 }
+
+PROPS["C02"] = {
+    "parts": [{"kind": "bin", "bin": "c02"}],
+    "rule": "E2: pairs (X, Y) with Y in {equal, one symbol changed at every position, proper prefix, proper suffix, one symbol longer (back/front), empty}; X at slice offset s1 and Y at s2 (independent offsets); every realisation of each side (fresh Seq, Seq with non-zero head, &Seq, SeqSlice, &SeqSlice, SeqArray, Kmer over usize/u64/u128 when the length is a fitting K, &str); every PartialEq impl in both operand orders and != ; recorded hasher streams compared across all realisations of equal content; HashMap<Seq,_>::get(&SeqSlice) and HashSet<Seq> membership. A case is one (codec, length, s1, s2)",
+    "bound": {"quick": "lengths 0..4 + WB(2 words) + the reduced K sets; offset pairs with s1 or s2 in {0,1,noff/2+1,noff-1} or s1==s2; 14 array lengths",
+              "thorough": "lengths 0..4 + WB(2 words) + every fitting K (up to 128); all noff x noff offset pairs"},
+    "assumptions": COMMON_ASSUME + [SEP, "hash streams are compared between representations, never with a constant, so a consistent change of the hashing scheme is not an alarm",
+        "a difference only in which write_* call carries the same bytes is counted but not a violation"],
+    "technique": "bounded-exhaustive enumeration of sequence pairs x independent bit offsets x representations on the real PartialEq/Hash impls against list equality, with a recording Hasher",
+    "level_text": "Every PartialEq impl is executed in both directions on every pair shape (equal / one symbol anywhere / prefix / suffix / empty) at every combination of slice alignments in the bound, and every representation of equal content must feed an identical byte stream to a recording hasher; k-mers of every K in the set over all three storages are included.",
+    "level_note": "Lengths beyond two words (other than fitting K values) are not enumerated.",
+}
+
+PROPS["C08"] = {
+    "parts": [{"kind": "bin", "bin": "c08"}],
+    "rule": "E2 over k-mer types: for every (codec, storage, K) in the tier's K set all contents (|alphabet|^K <= 4096) or the P(K) family through try_from(&slice), unsafe_from_seqslice, from_str, Display, len, Deref, AsRef, Seq::from, == &str, TryFrom<Seq>; wrong lengths {0,K-1,K+1,K+2,2K,K+spw} and invalid text must be errors; for usize-backed types kmers::<K>() against the model windows and against windows(K) for sequences of length {0,K-1,K,K+1,K+2,K+spw+1,2K+1} at slice offsets (plain and headed parents), plus the iterator protocol of KmerIter",
+    "bound": {"quick": "reduced K set per (codec, storage); 9 of noff offsets for iteration", "thorough": "every K that fits (634 types); all offsets"},
+    "assumptions": COMMON_ASSUME + [SEP, "kmer! literals are decided with the other literal macros in C16"],
+    "technique": "bounded-exhaustive enumeration of k-mer types x contents x lengths x bit offsets on the real constructors and KmerIter against list windows; iterator protocol exploration",
+    "level_text": "Each k-mer type in the K set is built from every content in the bound through every constructor and read back through every accessor; every wrong length and invalid text must be refused; KmerIter is compared item by item with the model windows and with windows(K) at every offset and driven through every next/nth/consumer sequence up to depth 2.",
+    "level_note": "The quick tier instantiates a reduced K set; thorough covers all 634 types.",
+}
+
+PROPS["C09"] = {
+    "parts": [{"kind": "bin", "bin": "c09"}],
+    "exhaustive_flags": ["graph: every k-mer of the type was reached and expanded"],
+    "rule": "E1 explicit-state: for every k-mer type with |alphabet|^K <= bound the state graph of ALL k-mers under rotated_left(1), rotated_right(1), pushl(x), pushr(x) for every symbol, to_rev/rev (usize-backed) and comp/revcomp (2-bit DNA) is explored completely by BFS, every transition compared with the list model and checked for canonical form; E2: for every type in the K set the P(K) family x rotation counts (0..2K+1, multiples of K, 65535..65537, 2^31, u32::MAX-K..u32::MAX) x pushes x unary ops, depth-2 chains, revcomp involution and canonical min(k, revcomp k)",
+    "bound": {"quick": "graphs with |alphabet|^K <= 256; family over the reduced K set", "thorough": "graphs with |alphabet|^K <= 4096; family over every K"},
+    "assumptions": COMMON_ASSUME + [SEP, "complement oracle = the codec's symbol-level complement"],
+    "technique": "explicit-state model checking of the complete k-mer state graph for small K (every state, every transition) plus bounded-exhaustive families for large K, against list operations packed little-endian",
+    "level_text": "For small K every k-mer of the type and every operation out of it is executed on the real code (complete graph, fixpoint reported); for large K every symbol at every position with every rotation count class and every pushed symbol, with depth-2 chains. Every result is compared with the same operation on the symbol list and must stay below 2^(K*BITS).",
+    "level_note": "Full 64/128-bit k-mer contents are covered by pattern families only.",
+}
+
+PROPS["C10"] = {
+    "parts": [{"kind": "bin", "bin": "c10"}],
+    "rule": "E2 over orderable codecs (those whose symbol type is Ord: dna, text, masked dna, masked iupac, degenerate): all pairs of k-mers for every type with |alphabet|^K <= bound (cmp, partial_cmp, <, <=, >, >=, ==, != against integer order and the colexicographic model; all triples when the type has <= 64 values); for every type in the K set pairs differing in exactly one position (every position, every symbol pair) with all lower positions ordered the opposite way; min/max/sort of the k-mers of sequences; all pairs of equal-length owned sequences up to 256 sequences per length and one-position pairs at every word-boundary length, fresh and headed",
+    "bound": {"quick": "all pairs for |alphabet|^K <= 256; reduced K set; WB(2 words)", "thorough": "all pairs for |alphabet|^K <= 1024; every K; WB(3 words)"},
+    "assumptions": COMMON_ASSUME + [SEP, "codecs whose symbols are not Ord (iupac::Iupac, amino::Amino) have no Kmer/Seq ordering at all (a compile error, not a wrong answer), so 'every codec' means the five orderable ones",
+        "owned sequences of different lengths are outside the property"],
+    "technique": "exhaustive enumeration of all pairs/triples of small k-mer types and bounded-exhaustive one-position families on the real Ord/PartialOrd impls against integer and colexicographic order",
+    "level_text": "For small k-mer types every ordered pair (and triple) is compared by the real Ord and must equal both the numeric order of the packed integers and the model's last-symbol-first comparison; for large K and for owned sequences up to 3 words, the pairs that separate colexicographic from any first-symbol-first order are enumerated at every position.",
+    "level_note": "Pairs of long k-mers differing in several positions are covered by transitivity plus one-position families only.",
+}
